@@ -81,13 +81,15 @@ def original(site, name):
 
 def config_dict(cfg):
     d = {
-        "evaluation_task": cfg["task"],
+        "evaluation_task": cfg["task"] + ("2d" if cfg.get("dim") == 2 else ""),
         "target_labels": list(cfg["target_labels"]),
         "label_prefix": "autoware",
         "merge_similar_labels": bool(cfg["merge"]),
     }
     rg = cfg["range"]
-    if rg["kind"] == "xy":
+    if rg is None:
+        pass   # camera world: no ego-relative range
+    elif rg["kind"] == "xy":
         d["max_x_position"] = rg["max_x"]
         d["max_y_position"] = rg["max_y"]
     else:
@@ -120,7 +122,9 @@ def config_dict(cfg):
 def make_crit(R, evaluator_config, spec):
     rg = spec["range"]
     kw = {}
-    if rg["kind"] == "xy":
+    if rg is None:
+        pass
+    elif rg["kind"] == "xy":
         kw["max_x_position_list"] = list(rg["max_x"])
         kw["max_y_position_list"] = list(rg["max_y"])
     else:
@@ -279,7 +283,7 @@ class Lane:
         try:
             self.config = R["PerceptionEvaluationConfig"](
                 dataset_paths=[d],
-                frame_id=self.frame.upper() if cfg.get("frame_upper") else self.frame,
+                frame_id=self._frame_id_argument(cfg),
                 result_root_directory=os.path.join(ctx.root, "result_%s" % self.name),
                 evaluation_config_dict=config_dict(cfg),
                 load_raw_data=bool(ctx.plan["storage"].get("raw")),
@@ -307,6 +311,13 @@ class Lane:
         for m in self.monitors:
             m.on_load(ctx, self, self.manager, self.generation)
         return self.manager
+
+    def _frame_id_argument(self, cfg):
+        fr = self.frame
+        if isinstance(fr, list):
+            fr = [f.upper() for f in fr] if cfg.get("frame_upper") else list(fr)
+            return fr[0] if cfg.get("frame_single") and len(fr) == 1 else fr
+        return fr.upper() if cfg.get("frame_upper") else fr
 
     def _hand_over(self, frame, mode):
         """The frame as the driver passes it on: the looked-up object itself, or a FrameGroundTruth built by the driver."""
@@ -340,6 +351,8 @@ class Lane:
         ctx, R = self.ctx, self.ctx.R
         FrameID, Quaternion = R["FrameID"], R["Quaternion"]
         out, infos = [], []
+        if ctx.plan["config"].get("dim") == 2:
+            return self._render_estimates_2d(msg, stamp)
         for k, o in enumerate(msg["objects"]):
             frame = self.frame
             if o.get("frame_fault"):
@@ -366,6 +379,29 @@ class Lane:
                 uuid=uuid,
             )
             info = {"k": k, "mid": msg["mid"], "spec": o, "frame": frame, "ego_pose": pe, "lane": self.name}
+            ctx.est_registry[id(obj)] = info
+            ctx.keepalive.append(obj)
+            out.append(obj)
+            infos.append(info)
+        return out, infos
+
+    def _render_estimates_2d(self, msg, stamp):
+        """Camera world: real DynamicObject2D detections (image ROI, camera frame id)."""
+        ctx, R = self.ctx, self.ctx.R
+        out, infos = [], []
+        for k, o in enumerate(msg["objects"]):
+            uuid = o.get("uuid")
+            if self.est_id_map and uuid is not None:
+                uuid = self.est_id_map.get(uuid, uuid)
+            obj = R["DynamicObject2D"](
+                unix_time=int(stamp),
+                frame_id=R["FrameID"].from_value(o["cam"].lower()),
+                semantic_score=float(o["conf"]),
+                semantic_label=self.config.label_converter.convert_label(o["label"], list(o.get("attrs", []))),
+                roi=tuple(int(v) for v in o["roi"]),
+                uuid=uuid,
+            )
+            info = {"k": k, "mid": msg["mid"], "spec": o, "frame": o["cam"].lower(), "lane": self.name}
             ctx.est_registry[id(obj)] = info
             ctx.keepalive.append(obj)
             out.append(obj)
